@@ -83,9 +83,17 @@ class Outcome:
         self.kind, self.value, self.state = kind, value, state   # kind: return | raise
 
 
+class Prove:
+    """A lemma instance that must be proved (obligation) before it is used; plain z3 terms returned by a
+    lemmas hook are *definitional* instances and are assumed."""
+    def __init__(self, z, label='lemma'):
+        self.z, self.label = z, label
+
+
 class LoopSpec:
-    def __init__(self, invariant=None, variant=None, header=None, modifies=None, unroll=None):
+    def __init__(self, invariant=None, variant=None, header=None, modifies=None, unroll=None, lemmas=None):
         self.invariant, self.variant, self.header = invariant, variant, header
+        self.lemmas = lemmas      # fn(ctx) -> [z3]: instances of spec-function definitions, assumed
         self.modifies = modifies or []
         self.unroll = unroll
 
@@ -323,13 +331,13 @@ class Engine:
 
     def narrow(self, s, cond):
         """Optional locals whose None-ness is decided by the branch just taken become plain values."""
-        text = None
+        csyms = None
         for name, v in list(s.env.items()):
-            if not isinstance(v, VOpt) or not z3.is_const(v.isnone):
+            if not isinstance(v, VOpt) or concrete_bool(v.isnone) is not None:
                 continue
-            if text is None:
-                text = cond.sexpr()
-            if v.isnone.decl().name() not in text:
+            if csyms is None:
+                csyms = free_syms(cond)
+            if not (free_syms(v.isnone) & csyms):
                 continue
             sol = z3.Solver()
             sol.set('timeout', 1000)
@@ -824,8 +832,32 @@ class Engine:
         raise Unsupported(f'`in` on {cont!r} at line {node.lineno}')
 
     # ---- subscripts
-    def norm_idx(self, i, n):
-        return z3.If(i < 0, z3.If(i + n < 0, 0, i + n), z3.If(i > n, n, i))
+    def norm_idx(self, i, n, s=None):
+        full = z3.If(i < 0, z3.If(i + n < 0, 0, i + n), z3.If(i > n, n, i))
+        r = simp(full)
+        if s is not None and not z3.is_int_value(r) and not z3.is_int_value(simp(i)):
+            # contextual simplification: if the path condition entails 0 <= i <= n the bound is i itself
+            sol = z3.Solver()
+            sol.set('timeout', 1000)
+            inr = z3.And(i >= 0, i <= n)
+            sol.add(*relevant(s.pc, inr))
+            sol.add(z3.Not(inr))
+            if sol.check() == z3.unsat:
+                return i
+        return r
+
+    def ctx_nonneg(self, s, d):
+        """max(d, 0), simplified to d when the path condition entails d >= 0"""
+        r = simp(d)
+        if z3.is_int_value(r):
+            return z3.IntVal(max(r.as_long(), 0))
+        sol = z3.Solver()
+        sol.set('timeout', 1000)
+        sol.add(*relevant(s.pc, d >= 0))
+        sol.add(d < 0)
+        if sol.check() == z3.unsat:
+            return r
+        return z3.If(d > 0, d, 0)
 
     def slice_bounds(self, s, sl, n, st_node):
         """-> list[(state, (start, stop)) | Raised]"""
@@ -838,8 +870,8 @@ class Engine:
                 out.append((s2, vals))
                 continue
             lo, hi = vals
-            lo = z3.IntVal(0) if lo is VNone else self.norm_idx(zt(lo), n)
-            hi = n if hi is VNone else self.norm_idx(zt(hi), n)
+            lo = z3.IntVal(0) if lo is VNone else self.norm_idx(zt(lo), n, s2)
+            hi = n if hi is VNone else self.norm_idx(zt(hi), n, s2)
             out.append((s2, (lo, hi)))
         return out
 
@@ -872,7 +904,7 @@ class Engine:
                             out.append((s2, b))
                             continue
                         lo, hi = b
-                        ln = z3.If(hi - lo > 0, hi - lo, 0)
+                        ln = self.ctx_nonneg(s2, hi - lo)
                         z = z3.Extract(base.z, simp(lo), simp(ln))
                         if isinstance(base, VBytes):
                             out.append((s2, VBytes(z, mutable=base.mutable)))
@@ -919,6 +951,9 @@ class Engine:
                     res.append((s2, VStr(z3.SubString(base.z, j, 1))))
                 else:
                     v = from_z3(base.z[j], base.elem)
+                    if isinstance(v, VTuple) and any(isinstance(it, VBytes) and it.mutable for it in v.items) \
+                            and node is not None and isinstance(node, ast.Subscript):
+                        v = self.alias_items(s2, v, base, j, node)
                     res.append((s2, v))
             return res
         if isinstance(base, (VTuple, VList)):
@@ -950,6 +985,36 @@ class Engine:
                     res.append((s2, Raised(VExc('KeyError'))))
             return res
         raise Unsupported(f'index of {base!r} at line {node.lineno}')
+
+    def alias_items(self, s, tup, base, j, node):
+        """Mutable bytearray components of an element of a symbolic list keep a write-back link
+        (pattern: buf, t = self._send_buf[0]; del buf[:n])."""
+        items = list(tup.items)
+        container = node.value
+        base_id = base.z.get_id()
+        keep = base.z     # keep alive
+
+        def mk(k):
+            def origin(st, old, new):
+                (st1, cur), = self.ev(container, st)
+                cur = self.deref(st1, cur)
+                if not isinstance(cur, VSeq) or cur.z.get_id() != base_id:
+                    raise Unsupported('mutation through a stale alias of a list element')
+                n = z3.Length(cur.z)
+                newitems = list(items)
+                newitems[k] = new
+                el = to_z3(VTuple(newitems), cur.elem)
+                if z3.is_int_value(simp(j)) and simp(j).as_long() == 0:
+                    nz = z3.Concat(z3.Unit(el), z3.Extract(cur.z, z3.IntVal(1), n - 1))
+                else:
+                    nz = z3.Concat(z3.Extract(cur.z, z3.IntVal(0), j), z3.Unit(el),
+                                   z3.Extract(cur.z, j + 1, n - j - 1))
+                self.store_container(st, container, VSeq(nz, cur.elem, origin=cur.origin))
+            return origin
+        for k, it in enumerate(items):
+            if isinstance(it, VBytes) and it.mutable:
+                items[k] = VBytes(it.z, mutable=True, origin=mk(k))
+        return VTuple(items)
 
     def map_value(self, s, m, kz):
         if m.vt.kind == 'obj':
@@ -1679,8 +1744,12 @@ class Engine:
                             out.append((s3, ('raise', b.exc)))
                             continue
                         lo, hi = b
-                        hi2 = z3.If(hi < lo, lo, hi)
-                        nz = z3.Concat(z3.Extract(cont.z, z3.IntVal(0), lo), z3.Extract(cont.z, hi2, n - hi2))
+                        hi2 = simp(lo + self.ctx_nonneg(s3, hi - lo))
+                        if z3.is_int_value(simp(lo)) and simp(lo).as_long() == 0:
+                            nz = z3.Extract(cont.z, hi2, simp(n - hi2))
+                        else:
+                            nz = z3.Concat(z3.Extract(cont.z, z3.IntVal(0), lo),
+                                           z3.Extract(cont.z, hi2, n - hi2))
                         nv = VBytes(nz, mutable=True, origin=cont.origin) if isinstance(cont, VBytes) \
                             else VSeq(nz, cont.elem, origin=cont.origin)
                         self.store_container(s3, t.value, nv)
@@ -1714,6 +1783,28 @@ class Engine:
                             out.append((s3, None))
                         else:
                             out.append((s3, ('raise', VExc('KeyError'))))
+                    elif isinstance(cont, (VSeq, VBytes)):
+                        n = z3.Length(cont.z)
+                        i = zt(idx)
+                        for s4, ok in self.branch(s3, z3.And(i >= -n, i < n), t):
+                            if not ok:
+                                out.append((s4, ('raise', VExc('IndexError'))))
+                                continue
+                            j = simp(z3.If(i < 0, i + n, i))
+                            nz = simp(z3.Concat(z3.Extract(cont.z, z3.IntVal(0), j),
+                                                z3.Extract(cont.z, j + 1, n - j - 1)))
+                            nv = VBytes(nz, mutable=True, origin=cont.origin) if isinstance(cont, VBytes) \
+                                else VSeq(nz, cont.elem, origin=cont.origin)
+                            self.store_container(s4, t.value, nv)
+                            out.append((s4, None))
+                    elif isinstance(cont, VList):
+                        ci = concrete_int(idx)
+                        if ci is None or not (-len(cont.items) <= ci < len(cont.items)):
+                            raise Unsupported('del list[index] with symbolic/out-of-range index')
+                        items = list(cont.items)
+                        del items[ci]
+                        self.store_container(s3, t.value, VList(items))
+                        out.append((s3, None))
                     else:
                         raise Unsupported(f'del subscript on {cont!r}')
             return out
@@ -1877,6 +1968,13 @@ class Engine:
         c.extra = extra or {}
         return c
 
+    def use_lemmas(self, s, items, node):
+        for it in items:
+            if isinstance(it, Prove):
+                self.oblige(s, f'lemma({it.label})', it.z, node)
+            else:
+                s.assume(it)
+
     def ex_While(self, stmt, st):
         ordn = self.loop_ordinals[id(stmt)]
         lspec = self.spec.loops.get(ordn)
@@ -1896,6 +1994,10 @@ class Engine:
         h = st.fork()
         self.havoc(h, stmt, lspec)
         h.assume(lspec.invariant(self.loop_ctx(h, entry)))
+        if lspec.lemmas:
+            lc = self.loop_ctx(h, entry)
+            lc.head = h.fork()
+            self.use_lemmas(h, lspec.lemmas(lc), stmt)
         hsnap = h.fork()
         for s, c in self.ev(stmt.test, h):
             if isinstance(c, Raised):
@@ -1903,10 +2005,18 @@ class Engine:
                 continue
             for s2, side in self.branch(s, self.truthy(s, c), stmt):
                 if not side:
+                    if lspec.lemmas:
+                        lc = self.loop_ctx(s2, entry)
+                        lc.head = hsnap
+                        self.use_lemmas(s2, lspec.lemmas(lc), stmt)
                     out.append((s2, None))
                     continue
                 for s3, flow in self.ex_block(stmt.body, s2):
                     if flow is None or flow[0] == 'continue':
+                        if lspec.lemmas:
+                            lc = self.loop_ctx(s3, entry)
+                            lc.head = hsnap
+                            self.use_lemmas(s3, lspec.lemmas(lc), stmt)
                         self.oblige(s3, f'inv-preserved(loop{ordn})',
                                     lspec.invariant(self.loop_ctx(s3, entry)), stmt)
                         if lspec.variant is not None:
